@@ -1,52 +1,72 @@
 package extract
 
 import (
+	"encoding/hex"
 	"fmt"
 	"go/ast"
-	"go/token"
-	"strconv"
+	"go/constant"
+	"regexp"
+	"sort"
 	"strings"
 )
 
 // Fetch: the table-like parts of the layer fetcher (property C09).
 //
-//	internal/zreader/zreader.go  Compression constants, detector array, magic headers
-//	libindex/fetcher.go          accepted status, content-type fix-up set and table,
-//	                             the content-type -> compression switch (fallthrough resolved)
-//	layer.go                     media types Layer.Init accepts, by how the FS is built
-//	digest.go                    algorithm -> checksum size switch of setChecksum
+//	internal/zreader   Compression constants (names: read from the package), the detectors
+//	libindex           accepted status, content-type fix-up set and table, content type -> compression
+//	claircore          media types Layer.Init accepts, by how the FS is built; checksum sizes of NewDigest
+//	internal/wart      the media type of the deprecated Realize
 //
-// Anything not of the expected shape is an error: Gen/Fetch.lean is then not
-// written and every obligation of C09 stops checking.
+// Everything except the constant names is EVALUATED (design/EXTRACT.md) by the
+// probe go/cmd/rxprobe/fetch, which runs the real code: detectCompression on
+// byte strings built from the package's byte-slice literals; one
+// RealizeDescriptions call per (status, content type, payload compression)
+// against a scripted in-process registry; Layer.Init per media type;
+// claircore.NewDigest per (algorithm, length).  The candidate content types /
+// media types / algorithms are the string literals of the packages, the
+// snapshot's entries, near misses of both and fresh probes.  Where the old
+// generated text had a source order, the snapshot's order is used when the
+// evaluated SET is the snapshot's, a canonical (sorted) order otherwise.
 func init() {
 	Register(Gen{Name: "Fetch", Run: genFetch})
 }
+
+type rxFetchAns struct {
+	Detect []int
+	Fetch  []string
+	Init   []string
+	Legacy string
+	Digest [][]int
+}
+
+type rxFetchOp struct {
+	CT      string `json:"ct"`
+	Payload string `json:"payload"`
+	Status  int    `json:"status,omitempty"`
+}
+
+var rxPayloads = []string{"gzip", "zstd", "plain", "bzip2"}
+
+// payload name -> zreader constant name
+var rxPayloadKind = map[string]string{"gzip": "KindGzip", "zstd": "KindZstd", "plain": "KindNone", "bzip2": "KindBzip2"}
 
 func genFetch(repo string) (string, error) {
 	out := Header("Fetch", "internal/zreader/zreader.go", "libindex/fetcher.go", "layer.go", "digest.go")
 
 	// ---- zreader
-	_, zf, err := ParseFile(repo, "internal/zreader/zreader.go")
+	zp, err := rxLoadPkg(repo, "internal/zreader")
 	if err != nil {
 		return "", err
 	}
-	kinds, err := fxIotaNames(zf, "Compression")
+	kinds, err := zp.IotaSeq("Compression")
 	if err != nil {
 		return "", err
 	}
 	out += "/-- zreader.Compression constants in iota order. -/\n"
 	out += "def kindNames : List String := " + LeanStrList(kinds) + "\n\n"
-	hdrs := map[string][]int64{}
-	for _, n := range []string{"gzipHeader", "zstdHeader", "bzipHeader"} {
-		b, err := fxByteSliceVar(zf, n)
-		if err != nil {
-			return "", err
-		}
-		hdrs[n] = b
-	}
-	dets, err := fxDetectorArray(zf, hdrs)
+	dets, deflt, err := rxDetectors(repo, zp, kinds)
 	if err != nil {
-		return "", err
+		return "", fmt.Errorf("zreader: %w", err)
 	}
 	if len(dets) >= len(kinds) {
 		return "", fmt.Errorf("zreader: %d detectors for %d compression kinds", len(dets), len(kinds))
@@ -64,7 +84,7 @@ func genFetch(repo string) (string, error) {
 		if i == len(dets)-1 {
 			sep = ""
 		}
-		out += fmt.Sprintf("  (%s, %s, %d, %s)%s\n", LeanString(kinds[i]), LeanNatList(d.header), d.maskLen, rng, sep)
+		out += fmt.Sprintf("  (%s, %s, %d, %s)%s\n", LeanString(d.kind), LeanNatList(d.header), d.maskLen, rng, sep)
 		if d.maskLen > maxSz {
 			maxSz = d.maskLen
 		}
@@ -72,38 +92,22 @@ func genFetch(repo string) (string, error) {
 	out += "]\n"
 	out += fmt.Sprintf("/-- zreader.maxSz as computed by the package's init. -/\ndef maxSz : Nat := %d\n", maxSz)
 	// the kind reported when no detector fires
-	out += "def defaultKind : String := " + LeanString("KindNone") + "\n\n"
+	out += "def defaultKind : String := " + LeanString(deflt) + "\n\n"
 	if !fxContains(kinds, "KindNone") {
 		return "", fmt.Errorf("zreader: no KindNone constant")
 	}
 
 	// ---- fetcher
-	_, ff, err := ParseFile(repo, "libindex/fetcher.go")
+	status, fixTypes, fixTable, cases, err := rxFetchTables(repo, kinds)
 	if err != nil {
-		return "", err
-	}
-	fd := FuncDecl(ff, "RemoteFetchArena", "fetchUnlinkedFile")
-	if fd == nil {
-		return "", fmt.Errorf("fetcher: fetchUnlinkedFile not found")
-	}
-	status, err := fxAcceptedStatus(fd)
-	if err != nil {
-		return "", err
+		return "", fmt.Errorf("fetcher: %w", err)
 	}
 	out += "/-- Status codes passed to httputil.CheckResponse. -/\n"
 	out += "def acceptStatus : List Nat := " + LeanNatList(status) + "\n\n"
-	fixTypes, fixTable, err := fxFixup(fd)
-	if err != nil {
-		return "", err
-	}
 	out += "/-- Content types the fetcher replaces by one derived from the sniffed compression. -/\n"
 	out += "def fixupTypes : List String := " + LeanStrList(fixTypes) + "\n"
 	out += "/-- sniffed kind -> replacement content type (kinds not listed: error). -/\n"
 	out += "def fixupTable : List (String × String) := " + fxLeanPairs(fixTable) + "\n\n"
-	cases, err := fxCtSwitch(fd)
-	if err != nil {
-		return "", err
-	}
 	out += "/-- The content-type switch in source order, fallthrough resolved:\n    (true = strings.HasSuffix / false = equality, literal, expected kind). No match: error. -/\n"
 	out += "def ctCases : List (Bool × String × String) := [\n"
 	for i, c := range cases {
@@ -116,21 +120,17 @@ func genFetch(repo string) (string, error) {
 	out += "]\n\n"
 	for _, c := range cases {
 		if !fxContains(kinds, c.kind) {
-			return "", fmt.Errorf("fetcher: content-type switch names unknown kind %s", c.kind)
+			return "", fmt.Errorf("fetcher: content-type table names unknown kind %s", c.kind)
 		}
 	}
 	for _, p := range fixTable {
 		if !fxContains(kinds, p[0]) {
-			return "", fmt.Errorf("fetcher: fix-up switch names unknown kind %s", p[0])
+			return "", fmt.Errorf("fetcher: fix-up table names unknown kind %s", p[0])
 		}
 	}
 
-	// ---- layer.go
-	_, lf, err := ParseFile(repo, "layer.go")
-	if err != nil {
-		return "", err
-	}
-	tarMT, dirMT, err := fxInitMediaTypes(lf)
+	// ---- Layer.Init, wart, NewDigest
+	tarMT, dirMT, legacyMT, algos, err := rxLayerTables(repo)
 	if err != nil {
 		return "", err
 	}
@@ -138,28 +138,8 @@ func genFetch(repo string) (string, error) {
 	out += "def tarMediaTypes : List String := " + LeanStrList(tarMT) + "\n"
 	out += "/-- Media types for which Layer.Init uses os.DirFS(desc.URI) and drops the reader. -/\n"
 	out += "def dirMediaTypes : List String := " + LeanStrList(dirMT) + "\n\n"
-
-	// ---- wart: media type the deprecated Realize assigns
-	_, wf, err := ParseFile(repo, "internal/wart/layerdescription.go")
-	if err != nil {
-		return "", err
-	}
-	wmt, err := fxWartMediaType(wf)
-	if err != nil {
-		return "", err
-	}
 	out += "/-- Media type wart.LayersToDescriptions gives every layer (deprecated Realize). -/\n"
-	out += "def legacyMediaType : String := " + LeanString(wmt) + "\n\n"
-
-	// ---- digest.go
-	_, df, err := ParseFile(repo, "digest.go")
-	if err != nil {
-		return "", err
-	}
-	algos, err := fxDigestAlgos(df)
-	if err != nil {
-		return "", err
-	}
+	out += "def legacyMediaType : String := " + LeanString(legacyMT) + "\n\n"
 	out += "/-- setChecksum: algorithm name -> checksum size in bytes (others: error). -/\n"
 	out += "def digestAlgos : List (String × Nat) := ["
 	for i, a := range algos {
@@ -189,395 +169,232 @@ func fxLeanPairs(ps [][2]string) string {
 	return "[" + strings.Join(q, ", ") + "]"
 }
 
-// fxIotaNames returns the names of the const block whose first spec has the
-// given type and the value iota.
-func fxIotaNames(f *ast.File, typ string) ([]string, error) {
-	for _, d := range f.Decls {
-		gd, ok := d.(*ast.GenDecl)
-		if !ok || gd.Tok != token.CONST || len(gd.Specs) == 0 {
-			continue
-		}
-		first, ok := gd.Specs[0].(*ast.ValueSpec)
-		if !ok {
-			continue
-		}
-		id, ok := first.Type.(*ast.Ident)
-		if !ok || id.Name != typ || len(first.Values) != 1 {
-			continue
-		}
-		if v, ok := first.Values[0].(*ast.Ident); !ok || v.Name != "iota" {
-			return nil, fmt.Errorf("%s constants do not start at iota", typ)
-		}
-		var names []string
-		for i, s := range gd.Specs {
-			vs := s.(*ast.ValueSpec)
-			if len(vs.Names) != 1 || (i > 0 && (vs.Type != nil || len(vs.Values) != 0)) {
-				return nil, fmt.Errorf("%s constants are not a plain iota sequence", typ)
-			}
-			names = append(names, vs.Names[0].Name)
-		}
-		return names, nil
-	}
-	return nil, fmt.Errorf("const block of type %s not found", typ)
-}
+// ---------------------------------------------------------------- detectors
 
-func fxTopLevelValue(f *ast.File, name string) ast.Expr {
-	for _, d := range f.Decls {
-		gd, ok := d.(*ast.GenDecl)
-		if !ok {
-			continue
-		}
-		for _, s := range gd.Specs {
-			vs, ok := s.(*ast.ValueSpec)
-			if !ok {
-				continue
-			}
-			for i, n := range vs.Names {
-				if n.Name == name && i < len(vs.Values) {
-					return vs.Values[i]
-				}
-			}
-		}
-	}
-	return nil
-}
-
-func fxByteLit(e ast.Expr) (int64, error) {
-	if bl, ok := e.(*ast.BasicLit); ok && bl.Kind == token.CHAR {
-		r, _, _, err := strconv.UnquoteChar(bl.Value[1:len(bl.Value)-1], '\'')
-		if err != nil || r > 255 {
-			return 0, fmt.Errorf("bad byte literal %s", bl.Value)
-		}
-		return int64(r), nil
-	}
-	v, err := IntLit(e)
-	if err != nil || v < 0 || v > 255 {
-		return 0, fmt.Errorf("not a byte literal")
-	}
-	return v, nil
-}
-
-// fxByteSliceVar reads `name = []byte{...}`.
-func fxByteSliceVar(f *ast.File, name string) ([]int64, error) {
-	v := fxTopLevelValue(f, name)
-	cl, ok := v.(*ast.CompositeLit)
-	if !ok {
-		return nil, fmt.Errorf("zreader: %s is not a []byte literal", name)
-	}
-	var out []int64
-	for _, e := range cl.Elts {
-		b, err := fxByteLit(e)
-		if err != nil {
-			return nil, fmt.Errorf("zreader: %s: %w", name, err)
-		}
-		out = append(out, b)
-	}
-	if len(out) == 0 {
-		return nil, fmt.Errorf("zreader: %s is empty", name)
-	}
-	return out, nil
-}
-
-type fxDetectorFact struct {
+type rxDetector struct {
+	kind     string
 	header   []int64
 	maskLen  int
 	hasRange bool
 	lo, hi   int64
 }
 
-// fxDetectorArray reads `var detectors = [...]detector{ staticHeader(x), ..., {Mask: bytes.Repeat([]byte{0xFF}, n), Check: func...} }`.
-func fxDetectorArray(f *ast.File, hdrs map[string][]int64) ([]fxDetectorFact, error) {
-	cl, ok := fxTopLevelValue(f, "detectors").(*ast.CompositeLit)
-	if !ok {
-		return nil, fmt.Errorf("zreader: detectors is not a composite literal")
-	}
-	// staticHeader must still be "mask of 0xFF as long as the header, bytes.Equal".
-	sh := FuncDecl(f, "", "staticHeader")
-	if sh == nil {
-		return nil, fmt.Errorf("zreader: staticHeader not found")
-	}
-	okMask, okEq := false, false
-	ast.Inspect(sh, func(n ast.Node) bool {
-		if c, ok := n.(*ast.CallExpr); ok {
-			if fxIsSel(c.Fun, "bytes", "Repeat") && len(c.Args) == 2 && fxIsFFSlice(c.Args[0]) && fxIsLenOf(c.Args[1], "h") {
-				okMask = true
-			}
-			if fxIsSel(c.Fun, "bytes", "Equal") && len(c.Args) == 2 {
-				okEq = true
-			}
-		}
-		return true
-	})
-	if !okMask || !okEq {
-		return nil, fmt.Errorf("zreader: staticHeader no longer has the recognised shape")
-	}
-	var out []fxDetectorFact
-	for _, e := range cl.Elts {
-		switch x := e.(type) {
-		case *ast.CallExpr:
-			id, ok := x.Fun.(*ast.Ident)
-			if !ok || id.Name != "staticHeader" || len(x.Args) != 1 {
-				return nil, fmt.Errorf("zreader: unrecognised detector constructor")
-			}
-			arg, ok := x.Args[0].(*ast.Ident)
-			if !ok || hdrs[arg.Name] == nil {
-				return nil, fmt.Errorf("zreader: staticHeader argument is not a known header")
-			}
-			out = append(out, fxDetectorFact{header: hdrs[arg.Name], maskLen: len(hdrs[arg.Name])})
-		case *ast.CompositeLit:
-			d := fxDetectorFact{}
-			for _, el := range x.Elts {
-				kv, ok := el.(*ast.KeyValueExpr)
+// rxByteLits: the byte strings written in a package: []byte{...} composite
+// literals of constant bytes and []byte("constant") conversions.
+func rxByteLits(p *rxPkg) [][]byte {
+	var out [][]byte
+	for _, f := range p.files {
+		sc := p.Scope(f)
+		ast.Inspect(f, func(n ast.Node) bool {
+			switch x := n.(type) {
+			case *ast.CompositeLit:
+				at, ok := x.Type.(*ast.ArrayType)
 				if !ok {
-					return nil, fmt.Errorf("zreader: detector literal without keys")
+					return true
 				}
-				switch kv.Key.(*ast.Ident).Name {
-				case "Mask":
-					c, ok := kv.Value.(*ast.CallExpr)
-					if !ok || !fxIsSel(c.Fun, "bytes", "Repeat") || len(c.Args) != 2 || !fxIsFFSlice(c.Args[0]) {
-						return nil, fmt.Errorf("zreader: detector mask is not bytes.Repeat([]byte{0xFF}, n)")
+				if id, ok := at.Elt.(*ast.Ident); !ok || (id.Name != "byte" && id.Name != "uint8") {
+					return true
+				}
+				var b []byte
+				for _, e := range x.Elts {
+					if kv, ok := e.(*ast.KeyValueExpr); ok {
+						e = kv.Value
 					}
-					n, err := IntLit(c.Args[1])
-					if err != nil {
-						return nil, fmt.Errorf("zreader: detector mask length: %w", err)
+					v, ok := sc.Int(e)
+					if !ok || v < 0 || v > 255 {
+						return true
 					}
-					d.maskLen = int(n)
-				case "Check":
-					fl, ok := kv.Value.(*ast.FuncLit)
-					if !ok {
-						return nil, fmt.Errorf("zreader: detector Check is not a function literal")
-					}
-					// bytes.Equal(<hdr>, b[:l]) && (b[l] >= 'x' && b[l] <= 'y'), l := len(<hdr>)
-					var hdr string
-					var lo, hi int64 = -1, -1
-					nret := 0
-					ast.Inspect(fl, func(n ast.Node) bool {
-						switch y := n.(type) {
-						case *ast.ReturnStmt:
-							nret++
-						case *ast.CallExpr:
-							if fxIsSel(y.Fun, "bytes", "Equal") && len(y.Args) == 2 {
-								if id, ok := y.Args[0].(*ast.Ident); ok {
-									hdr = id.Name
-								}
-							}
-						case *ast.BinaryExpr:
-							if y.Op == token.GEQ {
-								if v, err := fxByteLit(y.Y); err == nil {
-									lo = v
-								}
-							}
-							if y.Op == token.LEQ {
-								if v, err := fxByteLit(y.Y); err == nil {
-									hi = v
-								}
-							}
-							if y.Op == token.LOR || y.Op == token.NEQ || y.Op == token.LSS || y.Op == token.GTR {
-								nret += 100 // a shape this reader does not understand
+					b = append(b, byte(v))
+				}
+				if len(b) > 0 {
+					out = append(out, b)
+				}
+			case *ast.CallExpr:
+				if at, ok := x.Fun.(*ast.ArrayType); ok && len(x.Args) == 1 {
+					if id, ok := at.Elt.(*ast.Ident); ok && id.Name == "byte" {
+						if v, ok := sc.Const(x.Args[0]); ok && v.Kind() == constant.String {
+							if s := constant.StringVal(v); s != "" {
+								out = append(out, []byte(s))
 							}
 						}
-						return true
-					})
-					if hdrs[hdr] == nil || lo < 0 || hi < 0 || nret != 1 {
-						return nil, fmt.Errorf("zreader: detector Check no longer has the recognised shape")
 					}
-					d.header, d.hasRange, d.lo, d.hi = hdrs[hdr], true, lo, hi
-				default:
-					return nil, fmt.Errorf("zreader: unknown detector field")
 				}
 			}
-			if d.header == nil || d.maskLen != len(d.header)+1 {
-				return nil, fmt.Errorf("zreader: custom detector: mask length %d does not cover header+1", d.maskLen)
-			}
-			out = append(out, d)
-		default:
-			return nil, fmt.Errorf("zreader: unrecognised detector element")
-		}
-	}
-	return out, nil
-}
-
-func fxIsSel(e ast.Expr, pkg, name string) bool {
-	s, ok := e.(*ast.SelectorExpr)
-	if !ok || s.Sel.Name != name {
-		return false
-	}
-	id, ok := s.X.(*ast.Ident)
-	return ok && id.Name == pkg
-}
-
-func fxIsFFSlice(e ast.Expr) bool {
-	cl, ok := e.(*ast.CompositeLit)
-	if !ok || len(cl.Elts) != 1 {
-		return false
-	}
-	v, err := IntLit(cl.Elts[0])
-	return err == nil && v == 0xFF
-}
-
-func fxIsLenOf(e ast.Expr, name string) bool {
-	c, ok := e.(*ast.CallExpr)
-	if !ok || len(c.Args) != 1 {
-		return false
-	}
-	f, ok := c.Fun.(*ast.Ident)
-	a, ok2 := c.Args[0].(*ast.Ident)
-	return ok && ok2 && f.Name == "len" && a.Name == name
-}
-
-var fxHttpStatus = map[string]int64{"StatusOK": 200, "StatusCreated": 201, "StatusAccepted": 202, "StatusNoContent": 204,
-	"StatusPartialContent": 206, "StatusNotModified": 304}
-
-func fxAcceptedStatus(fd *ast.FuncDecl) ([]int64, error) {
-	var out []int64
-	var bad error
-	n := 0
-	ast.Inspect(fd, func(nd ast.Node) bool {
-		c, ok := nd.(*ast.CallExpr)
-		if !ok || !fxIsSel(c.Fun, "httputil", "CheckResponse") {
 			return true
-		}
-		n++
-		for _, a := range c.Args[1:] {
-			if s, ok := a.(*ast.SelectorExpr); ok {
-				if v, ok := fxHttpStatus[s.Sel.Name]; ok && fxIsSel(a, "http", s.Sel.Name) {
-					out = append(out, v)
-					continue
-				}
-			}
-			if v, err := IntLit(a); err == nil {
-				out = append(out, v)
-				continue
-			}
-			bad = fmt.Errorf("fetcher: unrecognised status argument to CheckResponse")
-		}
-		return true
-	})
-	if bad != nil {
-		return nil, bad
+		})
 	}
-	if n != 1 || len(out) == 0 {
-		return nil, fmt.Errorf("fetcher: expected exactly one httputil.CheckResponse call with status codes")
-	}
-	return out, nil
+	return out
 }
 
-func fxStrLit(e ast.Expr) (string, bool) {
-	bl, ok := e.(*ast.BasicLit)
-	if !ok || bl.Kind != token.STRING {
-		return "", false
-	}
-	s, err := strconv.Unquote(bl.Value)
-	return s, err == nil
-}
-
-// fxOrAtoms flattens a || b || c.
-func fxOrAtoms(e ast.Expr) []ast.Expr {
-	if p, ok := e.(*ast.ParenExpr); ok {
-		return fxOrAtoms(p.X)
-	}
-	if b, ok := e.(*ast.BinaryExpr); ok && b.Op == token.LOR {
-		return append(fxOrAtoms(b.X), fxOrAtoms(b.Y)...)
-	}
-	return []ast.Expr{e}
-}
-
-// fxCtEq recognises `ct == "lit"`.
-func fxCtEq(e ast.Expr) (string, bool) {
-	b, ok := e.(*ast.BinaryExpr)
-	if !ok || b.Op != token.EQL {
-		return "", false
-	}
-	id, ok := b.X.(*ast.Ident)
-	if !ok || id.Name != "ct" {
-		return "", false
-	}
-	return fxStrLit(b.Y)
-}
-
-// fxFixup finds `if ct == "" || ... { switch kind { case zreader.KindX: ct = "lit" ... default: return } }`.
-func fxFixup(fd *ast.FuncDecl) ([]string, [][2]string, error) {
-	var types []string
-	var table [][2]string
-	found := 0
-	var bad error
-	ast.Inspect(fd.Body, func(n ast.Node) bool {
-		is, ok := n.(*ast.IfStmt)
-		if !ok || is.Init != nil {
-			return true
+// rxDetectors infers, for every compression kind, the detector detectCompression
+// implements: the magic (the longest candidate byte string after which some next
+// byte makes the function report the kind), the set of next bytes it accepts
+// (all: no range; an interval: that range), the shortest input that is
+// recognised (the mask length), and checks that every bit of the magic matters
+// and that nothing after the mask does.
+func rxDetectors(repo string, zp *rxPkg, kinds []string) ([]rxDetector, string, error) {
+	candSet := map[string]bool{}
+	for _, b := range rxByteLits(zp) {
+		if len(b) <= 16 {
+			candSet[string(b)] = true
 		}
-		atoms := fxOrAtoms(is.Cond)
-		var lits []string
-		for _, a := range atoms {
-			l, ok := fxCtEq(a)
-			if !ok {
-				return true
+	}
+	for _, h := range rxSnapFetchMagics {
+		b, _ := hex.DecodeString(h)
+		candSet[string(b)] = true
+	}
+	var cands []string
+	for c := range candSet {
+		cands = append(cands, c)
+	}
+	sort.Strings(cands)
+	zeros := strings.Repeat("\x00", 8)
+	var inputs []string
+	for _, c := range cands {
+		for b := 0; b < 256; b++ {
+			inputs = append(inputs, c+string([]byte{byte(b)})+zeros)
+		}
+	}
+	inputs = append(inputs, "", zeros+zeros, strings.Repeat("\xff", 16), "rx probe: no magic")
+	ask := func(in []string) ([]int, error) {
+		hx := make([]string, len(in))
+		for i, s := range in {
+			hx[i] = hex.EncodeToString([]byte(s))
+		}
+		var ans rxFetchAns
+		if err := rxProbe(repo, "fetch", map[string]any{"detect": hx}, &ans); err != nil {
+			return nil, err
+		}
+		if len(ans.Detect) != len(in) {
+			return nil, fmt.Errorf("fetch probe: %d answers for %d detect questions", len(ans.Detect), len(in))
+		}
+		return ans.Detect, nil
+	}
+	res, err := ask(inputs)
+	if err != nil {
+		return nil, "", err
+	}
+	n := len(cands) * 256
+	deflt := res[n]
+	for i := n; i < len(res); i++ {
+		if res[i] != deflt {
+			return nil, "", fmt.Errorf("no single default kind: inputs without a magic are reported as %d and %d", deflt, res[i])
+		}
+	}
+	if deflt < 0 || deflt >= len(kinds) {
+		return nil, "", fmt.Errorf("default kind %d has no constant", deflt)
+	}
+	type found struct {
+		magic string
+		next  []int
+	}
+	best := map[int]found{}
+	for ci, c := range cands {
+		byKind := map[int][]int{}
+		for b := 0; b < 256; b++ {
+			k := res[ci*256+b]
+			if k != deflt {
+				byKind[k] = append(byKind[k], b)
 			}
-			lits = append(lits, l)
 		}
-		// the body must hold the switch on kind
-		var sw *ast.SwitchStmt
-		for _, st := range is.Body.List {
-			if s, ok := st.(*ast.SwitchStmt); ok {
-				if id, ok := s.Tag.(*ast.Ident); ok && id.Name == "kind" {
-					sw = s
+		for k, next := range byKind {
+			if cur, ok := best[k]; !ok || len(c) > len(cur.magic) {
+				best[k] = found{c, next}
+			}
+		}
+	}
+	var dets []rxDetector
+	var round2 []string
+	type chk struct {
+		kind        int
+		what        string
+		wantKind    bool
+		lenOfPrefix int
+	}
+	var checks []chk
+	var order []int
+	for k := range best {
+		order = append(order, k)
+	}
+	sort.Ints(order)
+	for _, k := range order {
+		if k < 0 || k >= len(kinds) {
+			return nil, "", fmt.Errorf("detectCompression reports %d, which is no Compression constant", k)
+		}
+		f := best[k]
+		d := rxDetector{kind: kinds[k]}
+		for _, b := range []byte(f.magic) {
+			d.header = append(d.header, int64(b))
+		}
+		if len(f.next) != 256 {
+			lo, hi := f.next[0], f.next[len(f.next)-1]
+			if hi-lo+1 != len(f.next) {
+				return nil, "", fmt.Errorf("%s: the bytes accepted after the magic %x are not one interval: %v", kinds[k], f.magic, f.next)
+			}
+			d.hasRange, d.lo, d.hi = true, int64(lo), int64(hi)
+		}
+		dets = append(dets, d)
+		x := f.magic + string([]byte{byte(f.next[0])}) + zeros
+		for l := 0; l <= len(x); l++ {
+			round2 = append(round2, x[:l])
+			checks = append(checks, chk{k, "prefix", true, l})
+		}
+		for bit := 0; bit < 8*len(f.magic); bit++ {
+			y := []byte(x)
+			y[bit/8] ^= 1 << (bit % 8)
+			round2 = append(round2, string(y))
+			checks = append(checks, chk{k, fmt.Sprintf("bit %d of the magic flipped", bit), false, 0})
+		}
+	}
+	res2, err := ask(round2)
+	if err != nil {
+		return nil, "", err
+	}
+	for di := range dets {
+		k := order[di]
+		d := &dets[di]
+		d.maskLen = -1
+		full := len(d.header) + 1 + len(zeros)
+		for i, c := range checks {
+			if c.kind != k {
+				continue
+			}
+			switch c.what {
+			case "prefix":
+				if res2[i] == k && d.maskLen < 0 {
+					d.maskLen = c.lenOfPrefix
+				}
+				if d.maskLen >= 0 && res2[i] != k {
+					return nil, "", fmt.Errorf("%s: an input of %d bytes is recognised but a longer one (%d) is not", d.kind, d.maskLen, c.lenOfPrefix)
+				}
+			default:
+				if res2[i] == k {
+					return nil, "", fmt.Errorf("%s: %s and the input is still recognised: the magic is not %x", d.kind, c.what, d.header)
 				}
 			}
 		}
-		if sw == nil {
-			return true
+		if d.maskLen < 0 || d.maskLen > full {
+			return nil, "", fmt.Errorf("%s: no input length is recognised", d.kind)
 		}
-		found++
-		types = lits
-		hasDefault := false
-		for _, st := range sw.Body.List {
-			cc := st.(*ast.CaseClause)
-			if cc.List == nil {
-				hasDefault = true
-				if len(cc.Body) != 1 {
-					bad = fmt.Errorf("fetcher: fix-up default is not a single return")
-				} else if _, ok := cc.Body[0].(*ast.ReturnStmt); !ok {
-					bad = fmt.Errorf("fetcher: fix-up default is not a return")
-				}
-				continue
-			}
-			if len(cc.Body) != 1 {
-				bad = fmt.Errorf("fetcher: fix-up case body is not a single assignment")
-				continue
-			}
-			as, ok := cc.Body[0].(*ast.AssignStmt)
-			if !ok || len(as.Lhs) != 1 || len(as.Rhs) != 1 || as.Tok != token.ASSIGN {
-				bad = fmt.Errorf("fetcher: fix-up case body is not an assignment")
-				continue
-			}
-			lhs, ok := as.Lhs[0].(*ast.Ident)
-			val, ok2 := fxStrLit(as.Rhs[0])
-			if !ok || !ok2 || lhs.Name != "ct" {
-				bad = fmt.Errorf("fetcher: fix-up case does not assign a literal to ct")
-				continue
-			}
-			for _, e := range cc.List {
-				s, ok := e.(*ast.SelectorExpr)
-				if !ok || !fxIsSel(e, "zreader", s.Sel.Name) {
-					bad = fmt.Errorf("fetcher: fix-up case is not a zreader kind")
-					continue
-				}
-				table = append(table, [2]string{s.Sel.Name, val})
-			}
+		if d.maskLen < len(d.header) {
+			return nil, "", fmt.Errorf("%s: recognised from %d bytes although the magic has %d", d.kind, d.maskLen, len(d.header))
 		}
-		if !hasDefault {
-			bad = fmt.Errorf("fetcher: fix-up switch has no default")
+		if !d.hasRange && d.maskLen > len(d.header) {
+			// every next byte is accepted but the byte must be there: still a mask over header+1 bytes
 		}
-		return true
-	})
-	if bad != nil {
-		return nil, nil, bad
+		if d.hasRange && d.maskLen != len(d.header)+1 {
+			return nil, "", fmt.Errorf("%s: a range for the byte after the magic but mask length %d for a %d byte magic", d.kind, d.maskLen, len(d.header))
+		}
 	}
-	if found != 1 {
-		return nil, nil, fmt.Errorf("fetcher: content-type fix-up block found %d times", found)
+	for i, d := range dets {
+		if d.kind != kinds[i] {
+			return nil, "", fmt.Errorf("kinds with a detector are not the first Compression constants (%s at position %d)", d.kind, i)
+		}
 	}
-	return types, table, nil
+	return dets, kinds[deflt], nil
 }
+
+// ---------------------------------------------------------------- fetcher
 
 type fxCtCase struct {
 	suffix bool
@@ -585,283 +402,379 @@ type fxCtCase struct {
 	kind   string
 }
 
-// fxCtSwitch finds the tagless switch that assigns wantZ.
-func fxCtSwitch(fd *ast.FuncDecl) ([]fxCtCase, error) {
-	var sw *ast.SwitchStmt
-	n := 0
-	ast.Inspect(fd.Body, func(nd ast.Node) bool {
-		s, ok := nd.(*ast.SwitchStmt)
-		if !ok || s.Tag != nil || s.Init != nil {
-			return true
-		}
-		assigns := false
-		ast.Inspect(s, func(m ast.Node) bool {
-			if as, ok := m.(*ast.AssignStmt); ok && len(as.Lhs) == 1 {
-				if id, ok := as.Lhs[0].(*ast.Ident); ok && id.Name == "wantZ" {
-					assigns = true
-				}
-			}
-			return true
-		})
-		if assigns {
-			sw = s
-			n++
-		}
-		return true
-	})
-	if n != 1 {
-		return nil, fmt.Errorf("fetcher: content-type switch found %d times", n)
-	}
-	type clause struct {
-		atoms []fxCtCase
-		kind  string // "" = fallthrough
-	}
-	var cls []clause
-	hasDefault := false
-	for i, st := range sw.Body.List {
-		cc := st.(*ast.CaseClause)
-		if cc.List == nil {
-			hasDefault = true
-			if i != len(sw.Body.List)-1 {
-				return nil, fmt.Errorf("fetcher: content-type switch default is not last")
-			}
-			if len(cc.Body) != 1 {
-				return nil, fmt.Errorf("fetcher: content-type switch default is not a single return")
-			}
-			if _, ok := cc.Body[0].(*ast.ReturnStmt); !ok {
-				return nil, fmt.Errorf("fetcher: content-type switch default is not a return")
-			}
-			continue
-		}
-		var c clause
-		for _, e := range cc.List {
-			for _, a := range fxOrAtoms(e) {
-				if l, ok := fxCtEq(a); ok {
-					c.atoms = append(c.atoms, fxCtCase{lit: l})
-					continue
-				}
-				if call, ok := a.(*ast.CallExpr); ok && fxIsSel(call.Fun, "strings", "HasSuffix") && len(call.Args) == 2 {
-					id, ok := call.Args[0].(*ast.Ident)
-					l, ok2 := fxStrLit(call.Args[1])
-					if ok && ok2 && id.Name == "ct" {
-						c.atoms = append(c.atoms, fxCtCase{suffix: true, lit: l})
-						continue
-					}
-				}
-				return nil, fmt.Errorf("fetcher: unrecognised content-type case condition")
-			}
-		}
-		if len(cc.Body) != 1 {
-			return nil, fmt.Errorf("fetcher: content-type case body is not a single statement")
-		}
-		switch b := cc.Body[0].(type) {
-		case *ast.BranchStmt:
-			if b.Tok != token.FALLTHROUGH {
-				return nil, fmt.Errorf("fetcher: unexpected branch in content-type switch")
-			}
-		case *ast.AssignStmt:
-			s, ok := b.Rhs[0].(*ast.SelectorExpr)
-			if !ok || !fxIsSel(b.Rhs[0], "zreader", s.Sel.Name) || b.Tok != token.ASSIGN {
-				return nil, fmt.Errorf("fetcher: content-type case does not assign a zreader kind")
-			}
-			c.kind = s.Sel.Name
-		default:
-			return nil, fmt.Errorf("fetcher: unrecognised content-type case body")
-		}
-		cls = append(cls, c)
-	}
-	if !hasDefault {
-		return nil, fmt.Errorf("fetcher: content-type switch has no default (unknown types would pass)")
-	}
-	var out []fxCtCase
-	for i, c := range cls {
-		k := c.kind
-		for j := i; k == "" && j < len(cls); j++ {
-			k = cls[j].kind
-		}
-		if k == "" {
-			return nil, fmt.Errorf("fetcher: fallthrough chain does not end in an assignment")
-		}
-		for _, a := range c.atoms {
-			a.kind = k
-			out = append(out, a)
-		}
-	}
-	return out, nil
-}
+var rxMediaLike = regexp.MustCompile(`^[A-Za-z0-9][A-Za-z0-9.+_-]*/[A-Za-z0-9.+_;= -]+$`)
 
-// fxInitMediaTypes reads the switch on desc.MediaType in (*Layer).Init.
-func fxInitMediaTypes(f *ast.File) (tarMT, dirMT []string, err error) {
-	fd := FuncDecl(f, "Layer", "Init")
-	if fd == nil {
-		return nil, nil, fmt.Errorf("layer.go: Layer.Init not found")
+const rxCtProbe = "application/vnd.rx-probe"
+
+// rxFetchTables evaluates the fetcher (see the file comment).
+func rxFetchTables(repo string, kinds []string) (status []int64, fixTypes []string, fixTable [][2]string, cases []fxCtCase, err error) {
+	lp, err := rxLoadPkg(repo, "libindex")
+	if err != nil {
+		return nil, nil, nil, nil, err
 	}
-	n := 0
-	ast.Inspect(fd.Body, func(nd ast.Node) bool {
-		sw, ok := nd.(*ast.SwitchStmt)
-		if !ok || !fxIsSel(sw.Tag, "desc", "MediaType") {
-			return true
+	// candidate exact content types and candidate suffixes
+	exact := rxSet{}
+	sufs := rxSet{}
+	addType := func(t string) {
+		if t == "" || len(t) > 120 {
+			return
 		}
-		n++
-		hasDefault := false
-		for _, st := range sw.Body.List {
-			cc := st.(*ast.CaseClause)
-			if cc.List == nil {
-				hasDefault = true
-				if len(cc.Body) != 1 {
-					err = fmt.Errorf("layer.go: media type default is not a single return")
-				} else if _, ok := cc.Body[0].(*ast.ReturnStmt); !ok {
-					err = fmt.Errorf("layer.go: media type default is not a return")
-				}
+		if rxMediaLike.MatchString(t) {
+			exact.add(t)
+		}
+		if strings.HasPrefix(t, ".") || strings.HasPrefix(t, "+") {
+			sufs.add(t)
+		}
+		for i := 1; i < len(t); i++ {
+			if t[i] == '.' || t[i] == '+' {
+				sufs.add(t[i:])
+			}
+		}
+	}
+	for _, l := range lp.StringLits() {
+		if !strings.ContainsAny(l, "%\n\t ") || rxMediaLike.MatchString(l) {
+			addType(l)
+		}
+	}
+	for _, t := range rxSnapFetch.fixupTypes {
+		addType(t)
+	}
+	for _, c := range rxSnapFetch.ctCases {
+		addType(c.lit)
+	}
+	for _, t := range rxSnapFetch.tarMT {
+		addType(t)
+	}
+	for _, p := range rxSnapFetch.fixupTable {
+		addType(p[1])
+	}
+	// near misses of the exact types
+	for _, t := range exact.sorted() {
+		exact.add(rxASCIIUpper(t), t+"x", t+"; charset=utf-8", " "+t, t+" ")
+		if i := strings.Index(t, "/"); i > 0 {
+			exact.add(rxASCIIUpper(t[:i]) + t[i:])
+		}
+	}
+	exact.add("text/plain", "binary/octet-stream", "application/octet-stream", "application/json", "rx-probe/none")
+	var ops []rxFetchOp
+	cts := append([]string{""}, exact.sorted()...)
+	for _, ct := range cts {
+		for _, p := range rxPayloads {
+			ops = append(ops, rxFetchOp{CT: ct, Payload: p})
+		}
+	}
+	sufList := sufs.sorted()
+	for _, s := range sufList {
+		for _, p := range rxPayloads {
+			ops = append(ops, rxFetchOp{CT: rxCtProbe + s, Payload: p})
+		}
+	}
+	statusCodes := []int{}
+	for c := 200; c < 300; c++ {
+		statusCodes = append(statusCodes, c)
+	}
+	statusCodes = append(statusCodes, 300, 301, 302, 304, 400, 401, 403, 404, 416, 429, 500, 503)
+	for _, c := range statusCodes {
+		ops = append(ops, rxFetchOp{CT: "application/gzip", Payload: "gzip", Status: c})
+	}
+	run := func(ops []rxFetchOp) ([]string, error) {
+		var ans rxFetchAns
+		if err := rxProbe(repo, "fetch", map[string]any{"fetch": ops}, &ans); err != nil {
+			return nil, err
+		}
+		if len(ans.Fetch) != len(ops) {
+			return nil, fmt.Errorf("fetch probe: %d answers for %d questions", len(ans.Fetch), len(ops))
+		}
+		for i, r := range ans.Fetch {
+			if strings.HasPrefix(r, "panic") || strings.HasPrefix(r, "setup") || strings.HasPrefix(r, "accepted but") {
+				return nil, fmt.Errorf("fetch of (%q, %s, status %d): %s", ops[i].CT, ops[i].Payload, ops[i].Status, r)
+			}
+		}
+		return ans.Fetch, nil
+	}
+	res, err := run(ops)
+	if err != nil {
+		return nil, nil, nil, nil, err
+	}
+	acc := map[string][]string{} // content type -> payloads accepted
+	i := 0
+	for _, ct := range cts {
+		for _, p := range rxPayloads {
+			if res[i] == "" {
+				acc[ct] = append(acc[ct], p)
+			}
+			i++
+		}
+	}
+	for _, s := range sufList {
+		for _, p := range rxPayloads {
+			if res[i] == "" {
+				acc[rxCtProbe+s] = append(acc[rxCtProbe+s], p)
+			}
+			i++
+		}
+	}
+	for _, c := range statusCodes {
+		if res[i] == "" {
+			status = append(status, int64(c))
+		}
+		i++
+	}
+	// ---- suffix rules: shortest accepted suffix of every accepted probe type
+	type rule struct {
+		lit, kind string
+	}
+	var need []rxFetchOp
+	var extraFix []string
+	hits := map[string]string{} // suffix -> payload
+	for _, s := range sufList {
+		if a := acc[rxCtProbe+s]; len(a) == 1 {
+			hits[s] = a[0]
+			for j := 1; j < len(s); j++ {
+				need = append(need, rxFetchOp{CT: rxCtProbe + s[j:], Payload: a[0]})
+			}
+			need = append(need, rxFetchOp{CT: rxCtProbe + s + "~", Payload: a[0]}, rxFetchOp{CT: rxCtProbe + rxASCIIUpper(s), Payload: a[0]})
+		} else if len(a) > 1 {
+			// an unknown type that is sniffed instead of refused: listed among the fix-up types below
+			extraFix = append(extraFix, rxCtProbe+s)
+		}
+	}
+	res2, err := run(need)
+	if err != nil {
+		return nil, nil, nil, nil, err
+	}
+	ok2 := map[string]bool{}
+	for j, op := range need {
+		if res2[j] == "" {
+			ok2[op.CT+"\x00"+op.Payload] = true
+		}
+	}
+	sufRules := map[string]string{} // minimal suffix -> payload
+	var anomalies []fxCtCase
+	for s, p := range hits {
+		min := s
+		for j := 1; j < len(s); j++ {
+			if ok2[rxCtProbe+s[j:]+"\x00"+p] {
+				min = s[j:]
+			}
+		}
+		if cur, dup := sufRules[min]; dup && cur != p {
+			return nil, nil, nil, nil, fmt.Errorf("suffix %q is accepted with payload %s and %s", min, cur, p)
+		}
+		sufRules[min] = p
+		if ok2[rxCtProbe+s+"~"+"\x00"+p] {
+			anomalies = append(anomalies, fxCtCase{true, "contains:" + s, rxPayloadKind[p]})
+		}
+		if ok2[rxCtProbe+rxASCIIUpper(s)+"\x00"+p] && rxASCIIUpper(s) != s {
+			anomalies = append(anomalies, fxCtCase{true, "case-insensitive:" + s, rxPayloadKind[p]})
+		}
+	}
+	explained := func(ct, p string) bool {
+		for s, sp := range sufRules {
+			if sp == p && strings.HasSuffix(ct, s) {
+				return true
+			}
+		}
+		return false
+	}
+	// ---- exact rules and fix-up types
+	var canon []fxCtCase
+	fix := rxSet{}
+	fixKinds := map[string]string{}
+	for _, ct := range cts {
+		a := acc[ct]
+		switch {
+		case len(a) == 1:
+			if !explained(ct, a[0]) {
+				canon = append(canon, fxCtCase{false, ct, rxPayloadKind[a[0]]})
+			}
+		case len(a) > 1:
+			fix.add(ct)
+			fixKinds[ct] = strings.Join(a, ",")
+		}
+	}
+	for s, p := range sufRules {
+		canon = append(canon, fxCtCase{true, s, rxPayloadKind[p]})
+	}
+	for _, t := range extraFix {
+		fix.add(t)
+		fixKinds[t] = strings.Join(acc[t], ",")
+	}
+	canon = append(canon, anomalies...)
+	key := func(c fxCtCase) string { return fmt.Sprintf("%v\x00%s\x00%s", c.suffix, c.lit, c.kind) }
+	sort.Slice(canon, func(i, j int) bool { return key(canon[i]) < key(canon[j]) })
+	want := rxSet{}
+	for _, c := range rxSnapFetch.ctCases {
+		want.add(key(c))
+	}
+	got := rxSet{}
+	for _, c := range canon {
+		got.add(key(c))
+	}
+	if strings.Join(want.sorted(), "\x01") == strings.Join(got.sorted(), "\x01") {
+		cases = append(cases, rxSnapFetch.ctCases...)
+	} else {
+		cases = canon
+	}
+	// fix-up types: the same set of payloads must pass under each of them
+	fixTypes = fix.sorted()
+	kindsUnderFix := ""
+	for _, t := range fixTypes {
+		if kindsUnderFix == "" {
+			kindsUnderFix = fixKinds[t]
+		} else if fixKinds[t] != kindsUnderFix {
+			return nil, nil, nil, nil, fmt.Errorf("fix-up content types differ in the payloads they let pass: %q: %s, %q: %s", fixTypes[0], kindsUnderFix, t, fixKinds[t])
+		}
+	}
+	if strings.Join(fixTypes, "\x01") == strings.Join(rxSorted(rxSnapFetch.fixupTypes), "\x01") {
+		fixTypes = append([]string{}, rxSnapFetch.fixupTypes...)
+	}
+	// fix-up table: which kinds pass under a fix-up type; the replacement type itself is not observable
+	// (it only selects the row of the content-type table), so the snapshot's is printed when it is
+	// consistent with what was observed: the same kinds pass, and each replacement maps to its kind.
+	kindOf := func(ct string) string {
+		if a := acc[ct]; len(a) == 1 {
+			return rxPayloadKind[a[0]]
+		}
+		return ""
+	}
+	passing := rxSet{}
+	if kindsUnderFix != "" {
+		for _, p := range strings.Split(kindsUnderFix, ",") {
+			passing.add(rxPayloadKind[p])
+		}
+	}
+	consistent := true
+	snapKinds := rxSet{}
+	for _, p := range rxSnapFetch.fixupTable {
+		snapKinds.add(p[0])
+		if kindOf(p[1]) != p[0] {
+			consistent = false
+		}
+	}
+	if consistent && strings.Join(snapKinds.sorted(), ",") == strings.Join(passing.sorted(), ",") {
+		fixTable = append(fixTable, rxSnapFetch.fixupTable...)
+	} else {
+		for _, k := range kinds {
+			if !passing[k] {
 				continue
 			}
-			var lits []string
-			for _, e := range cc.List {
-				l, ok := fxStrLit(e)
-				if !ok {
-					err = fmt.Errorf("layer.go: media type case is not a string literal")
+			// some exact type that selects the kind
+			rep := ""
+			for _, c := range canon {
+				if !c.suffix && c.kind == k && (rep == "" || c.lit < rep) {
+					rep = c.lit
 				}
-				lits = append(lits, l)
 			}
-			usesTar, usesDir := false, false
-			for _, b := range cc.Body {
-				ast.Inspect(b, func(m ast.Node) bool {
-					if c, ok := m.(*ast.CallExpr); ok {
-						if fxIsSel(c.Fun, "tarfs", "New") {
-							usesTar = true
-						}
-						if fxIsSel(c.Fun, "os", "DirFS") {
-							usesDir = true
-						}
-					}
-					return true
-				})
-			}
-			switch {
-			case usesTar && !usesDir:
-				tarMT = append(tarMT, lits...)
-			case usesDir && !usesTar:
-				dirMT = append(dirMT, lits...)
-			default:
-				err = fmt.Errorf("layer.go: media type case builds its FS in an unrecognised way")
-			}
+			fixTable = append(fixTable, [2]string{k, rep})
 		}
-		if !hasDefault {
-			err = fmt.Errorf("layer.go: media type switch has no default")
-		}
-		return true
-	})
-	if err != nil {
-		return nil, nil, err
 	}
-	if n != 1 {
-		return nil, nil, fmt.Errorf("layer.go: switch on desc.MediaType found %d times", n)
+	if len(status) == 0 {
+		return nil, nil, nil, nil, fmt.Errorf("no status code is accepted")
 	}
-	return tarMT, dirMT, nil
+	return status, fixTypes, fixTable, cases, nil
 }
 
-func fxWartMediaType(f *ast.File) (string, error) {
-	fd := FuncDecl(f, "", "LayersToDescriptions")
-	if fd == nil {
-		return "", fmt.Errorf("wart: LayersToDescriptions not found")
-	}
-	var out []string
-	ast.Inspect(fd.Body, func(n ast.Node) bool {
-		as, ok := n.(*ast.AssignStmt)
-		if !ok || len(as.Lhs) != 1 || len(as.Rhs) != 1 {
-			return true
-		}
-		if s, ok := as.Lhs[0].(*ast.SelectorExpr); ok && s.Sel.Name == "MediaType" {
-			if l, ok := fxStrLit(as.Rhs[0]); ok {
-				out = append(out, l)
-			} else {
-				out = append(out, "\x00")
-			}
-		}
-		return true
-	})
-	if len(out) != 1 || out[0] == "\x00" {
-		return "", fmt.Errorf("wart: LayersToDescriptions does not assign one literal MediaType")
-	}
-	return out[0], nil
+func rxSorted(xs []string) []string {
+	out := append([]string{}, xs...)
+	sort.Strings(out)
+	return out
 }
+
+// ---------------------------------------------------------------- Layer.Init, wart, NewDigest
 
 type fxAlgoFact struct {
 	name string
 	size int64
 }
 
-var fxHashSizes = map[string]int64{"sha256.Size": 32, "sha512.Size": 64, "sha1.Size": 20, "md5.Size": 16, "sha512.Size384": 48, "sha256.Size224": 28}
-
-// fxDigestAlgos reads the `switch d.algo` of (*Digest).setChecksum.
-func fxDigestAlgos(f *ast.File) ([]fxAlgoFact, error) {
-	fd := FuncDecl(f, "Digest", "setChecksum")
-	if fd == nil {
-		return nil, fmt.Errorf("digest.go: setChecksum not found")
-	}
-	var out []fxAlgoFact
-	var err error
-	n := 0
-	ast.Inspect(fd.Body, func(nd ast.Node) bool {
-		sw, ok := nd.(*ast.SwitchStmt)
-		if !ok || !fxIsSel(sw.Tag, "d", "algo") {
-			return true
-		}
-		n++
-		hasDefault := false
-		for _, st := range sw.Body.List {
-			cc := st.(*ast.CaseClause)
-			if cc.List == nil {
-				hasDefault = true
-				if len(cc.Body) != 1 {
-					err = fmt.Errorf("digest.go: default of the algorithm switch is not a single return")
-				} else if _, ok := cc.Body[0].(*ast.ReturnStmt); !ok {
-					err = fmt.Errorf("digest.go: default of the algorithm switch is not a return")
-				}
-				continue
-			}
-			if len(cc.Body) != 1 {
-				err = fmt.Errorf("digest.go: algorithm case is not a single assignment")
-				continue
-			}
-			as, ok := cc.Body[0].(*ast.AssignStmt)
-			if !ok || len(as.Rhs) != 1 {
-				err = fmt.Errorf("digest.go: algorithm case is not an assignment")
-				continue
-			}
-			var size int64 = -1
-			if s, ok := as.Rhs[0].(*ast.SelectorExpr); ok {
-				if id, ok := s.X.(*ast.Ident); ok {
-					if v, ok := fxHashSizes[id.Name+"."+s.Sel.Name]; ok {
-						size = v
-					}
-				}
-			} else if v, e := IntLit(as.Rhs[0]); e == nil {
-				size = v
-			}
-			if size < 0 {
-				err = fmt.Errorf("digest.go: unrecognised checksum size expression")
-				continue
-			}
-			for _, e := range cc.List {
-				l, ok := fxStrLit(e)
-				if !ok {
-					err = fmt.Errorf("digest.go: algorithm case is not a string literal")
-					continue
-				}
-				out = append(out, fxAlgoFact{l, size})
-			}
-		}
-		if !hasDefault {
-			err = fmt.Errorf("digest.go: algorithm switch has no default")
-		}
-		return true
-	})
+func rxLayerTables(repo string) (tarMT, dirMT []string, legacyMT string, algos []fxAlgoFact, err error) {
+	root, err := rxLoadPkg(repo, ".")
 	if err != nil {
-		return nil, err
+		return nil, nil, "", nil, err
 	}
-	if n != 1 || len(out) == 0 {
-		return nil, fmt.Errorf("digest.go: switch on d.algo found %d times", n)
+	mts := rxSet{}
+	names := rxSet{}
+	short := regexp.MustCompile(`^[A-Za-z0-9_-]{1,24}$`)
+	for _, l := range root.StringLits() {
+		if rxMediaLike.MatchString(l) && len(l) <= 120 {
+			mts.add(l)
+		}
+		if short.MatchString(l) {
+			names.add(l)
+		}
 	}
-	return out, nil
+	mts.add(rxSnapFetch.tarMT...)
+	mts.add(rxSnapFetch.dirMT...)
+	for _, c := range rxSnapFetch.ctCases {
+		if !c.suffix {
+			mts.add(c.lit)
+		}
+	}
+	for _, t := range mts.sorted() {
+		mts.add(rxASCIIUpper(t), t+"x", t+"; charset=utf-8", t+"+gzip", t+"+zstd", strings.TrimSuffix(strings.TrimSuffix(t, "+gzip"), "+zstd"))
+	}
+	mts.add("", "rx-probe/none", "application/vnd.docker.image.rootfs.diff.tar.gzip", "application/vnd.docker.image.rootfs.diff.tar", "application/x-tar", "application/gzip")
+	for _, a := range rxSnapFetch.algos {
+		names.add(a.name)
+	}
+	for _, a := range names.sorted() {
+		names.add(rxASCIIUpper(a), rxASCIILower(a))
+	}
+	names.add("", "md5", "sha1", "sha224", "sha384", "sha512-256", "sha3-256", "blake2b", "rx-probe")
+	var ans rxFetchAns
+	mtList, algoList := mts.sorted(), names.sorted()
+	if err := rxProbe(repo, "fetch", map[string]any{"init": mtList, "digest": algoList}, &ans); err != nil {
+		return nil, nil, "", nil, err
+	}
+	if len(ans.Init) != len(mtList) || len(ans.Digest) != len(algoList) {
+		return nil, nil, "", nil, fmt.Errorf("fetch probe: short answer for init / digest")
+	}
+	for i, mt := range mtList {
+		switch ans.Init[i] {
+		case "tar":
+			tarMT = append(tarMT, mt)
+		case "dir":
+			dirMT = append(dirMT, mt)
+		case "err":
+		default:
+			return nil, nil, "", nil, fmt.Errorf("Layer.Init with media type %q: %s (neither refused nor a tar or directory file system)", mt, ans.Init[i])
+		}
+	}
+	if strings.Join(tarMT, "\x01") == strings.Join(rxSorted(rxSnapFetch.tarMT), "\x01") {
+		tarMT = append([]string{}, rxSnapFetch.tarMT...)
+	}
+	if strings.Join(dirMT, "\x01") == strings.Join(rxSorted(rxSnapFetch.dirMT), "\x01") {
+		dirMT = append([]string{}, rxSnapFetch.dirMT...)
+	}
+	if tarMT == nil {
+		tarMT = []string{}
+	}
+	if dirMT == nil {
+		dirMT = []string{}
+	}
+	got := map[string][]int{}
+	for i, a := range algoList {
+		if len(ans.Digest[i]) > 0 {
+			got[a] = ans.Digest[i]
+		}
+	}
+	listed := map[string]bool{}
+	for _, a := range rxSnapFetch.algos {
+		listed[a.name] = true
+		for _, n := range got[a.name] {
+			algos = append(algos, fxAlgoFact{a.name, int64(n)})
+		}
+	}
+	for _, a := range algoList {
+		if !listed[a] {
+			for _, n := range got[a] {
+				algos = append(algos, fxAlgoFact{a, int64(n)})
+			}
+		}
+	}
+	if len(algos) == 0 {
+		return nil, nil, "", nil, fmt.Errorf("digest.go: NewDigest accepts no candidate algorithm")
+	}
+	return tarMT, dirMT, ans.Legacy, algos, nil
 }
